@@ -374,6 +374,9 @@ func (m *Money) UnmarshalJSON(b []byte) error {
 	return nil
 }
 
+// Bag is an entity whose JSON encoding is null when it is nil
+type Bag map[string]int
+
 type Rich struct {
 	Total  Money             `json:"total"`
 	Name   string            `json:"name"`
@@ -438,9 +441,25 @@ func roundTrips(rnd *rand.Rand, storeKind, dir string, n int) ([][]byte, error) 
 		vv := v
 		exps = append(exps, exp{key, &vv})
 	}
+	// entities whose encoding is not an object: a nil map (JSON null), an empty and a one-entry map
+	bags := []Bag{nil, {}, {"k": rnd.IntN(9)}}
+	for i, b := range bags {
+		var msg *state.ChangeMessage
+		if rnd.IntN(2) == 0 {
+			msg, err = state.Insert(fmt.Sprint("bag", i), b, changeOpts(rnd)...)
+		} else {
+			msg, err = state.Update(fmt.Sprint("bag", i), b, changeOpts(rnd)...)
+		}
+		if err != nil {
+			return nil, err
+		}
+		eb.Publish(bus, msg)
+	}
 	m := state.NewMaterializer()
 	c := state.NewTypedCollection[Rich](state.NewMemoryStore[Rich]())
 	state.RegisterCollection(m, c)
+	cb := state.NewTypedCollection[Bag](state.NewMemoryStore[Bag]())
+	state.RegisterCollection(m, cb)
 	if err := m.Replay(context.Background(), eb.New(eb.WithStore(store)), eb.OffsetOldest); err != nil {
 		// messages built by the helper constructors from encodable entities: a replay that cannot apply them is a broken round trip
 		b, _ := json.Marshal(map[string]any{"e": "roundtrip", "ok": false, "why": "replay of helper-built messages failed: " + err.Error(), "key": ""})
@@ -483,6 +502,20 @@ func roundTrips(rnd *rand.Rand, storeKind, dir string, n int) ([][]byte, error) 
 			}
 		}
 		b, _ := json.Marshal(map[string]any{"e": "roundtrip", "ok": why == "", "why": why, "key": e.key})
+		lines = append(lines, b)
+	}
+	for i, want := range bags {
+		key := fmt.Sprint("bag", i)
+		got, ok := cb.Get(key)
+		why := ""
+		wb, _ := json.Marshal(want)
+		gb, _ := json.Marshal(got)
+		if !ok {
+			why = "entity missing"
+		} else if string(wb) != string(gb) {
+			why = fmt.Sprintf("entity %s came back as %s", wb, gb)
+		}
+		b, _ := json.Marshal(map[string]any{"e": "roundtrip", "ok": why == "", "why": why, "key": key})
 		lines = append(lines, b)
 	}
 	return lines, nil
